@@ -2,7 +2,7 @@
 # Developer helper: import a sub-agent's seeded change (its own _seed/patch.diff), confirming the demonstration on a clean
 # worktree with and without the patch.   usage: seedimport.sh <ID> [seed-name]
 ID=$1; NAME=${2:-$1}
-WT=/tmp/sdsv-wt/$ID; VT=/tmp/sdsv-wt/VERIFY
+WT=/tmp/sdsv-wt/$ID; VT=${VT:-/tmp/sdsv-wt/VERIFY}
 mkdir -p /verif/seeded/$NAME
 cp $WT/_seed/patch.diff /verif/seeded/$NAME/patch.diff
 cp $WT/_seed/demo.* /verif/seeded/$NAME/ 2>/dev/null
